@@ -184,6 +184,34 @@ func TestC14(t *testing.T) {
 // later time is the newest, also when both fall into the same second, whichever was added first.
 func c14Newest(v *Verdict) {
 	base := time.Unix(1700000000, 0)
+	// three matching entries in every order (the newest so far is what a later one is compared with)
+	for _, ord := range [][3]int{{300, 400, 500}, {300, 500, 400}, {400, 300, 500}, {400, 500, 300}, {500, 300, 400}, {500, 400, 300}} {
+		for _, sameKvno := range []bool{false, true} {
+			kt := keytab.New()
+			for i, s := range ord {
+				kv := uint8(i + 1)
+				if sameKvno {
+					kv = 7
+				}
+				kt.AddEntry("u", "R", fmt.Sprintf("password-%d", i), base.Add(time.Duration(s)*time.Second), kv, 17)
+			}
+			want := 0
+			for i := range ord {
+				if ord[i] == 500 {
+					want = i
+				}
+			}
+			kvno := 0
+			if sameKvno {
+				kvno = 7
+			}
+			key, kv, err := kt.GetEncryptionKey(types.PrincipalName{NameType: 1, NameString: []string{"u"}}, "R", kvno, 17)
+			v.Case(fmt.Sprintf("newest3/%v/%v", ord, sameKvno), "newest of three entries added in memory")
+			if err != nil || len(kt.Entries) != 3 || string(key.KeyValue) != string(kt.Entries[want].Key.KeyValue) || kv != int(kt.Entries[want].KVNO) {
+				v.Violate("failing-input", "c14:newest-of-three", "of three matching entries the lookup does not return the one with the latest timestamp", map[string]string{"timestamps-in-table-order": fmt.Sprint(ord), "same-kvno": fmt.Sprint(sameKvno), "returned-kvno": fmt.Sprint(kv), "error": fmt.Sprint(err)})
+			}
+		}
+	}
 	for _, d := range [][2]time.Duration{{100 * time.Millisecond, 900 * time.Millisecond}, {900 * time.Millisecond, 100 * time.Millisecond}, {0, time.Nanosecond}, {time.Second, 1500 * time.Millisecond}, {2 * time.Second, time.Second}} {
 		for _, sameKvno := range []bool{false, true} {
 			kt := keytab.New()
